@@ -849,7 +849,7 @@ class ExtEvent:
 
         Return the event handler's exit value.
         """
-        if not simulator.get_circuit().is_ready():
+        if not self._dest.circuit.is_ready():
             raise EdzedInvalidState("The circuit simulation is shutting down or not running")
         if value is not UNDEF:
             data['value'] = value
